@@ -61,6 +61,11 @@ Proof. destruct (N.eq_dec i m) as [->|Hi]; [rewrite cfg_self; reflexivity|rewrit
 Lemma start_cb_later stage : stage <> 0 -> forall s, start_cb sc' stage m s = start_cb sc stage m s.
 Proof. intros H s. unfold start_cb. rewrite (at_sim_start_later 0 stage s H). reflexivity. Qed.
 
+Lemma others_snoc tr tr' k k' t t' l l' : others (items tr) = others (items tr') -> others l = others l' ->
+  others (items (tr ++ [{| e_kind := k; e_time := t; e_items := l |}])) =
+  others (items (tr' ++ [{| e_kind := k'; e_time := t'; e_items := l' |}])).
+Proof. intros H1 H2. rewrite !items_snoc, !others_app, H1. cbn [e_items]. rewrite H2. reflexivity. Qed.
+
 Lemma start_step stage i acc acc' : SI acc acc' -> (stage = 0 -> w_mod (fst acc) i = mst0 (cfg sc i)) ->
   SI (start_one sc stage i acc) (start_one sc' stage i acc').
 Proof.
@@ -87,18 +92,18 @@ Proof.
       - left. rewrite (start_cb_later stage Hs0). unfold start_cb.
         apply (at_sim_start_agree (nmods sc) (cfg sc m) 0 m stage). split; [apply activate_agree, Same_agree, HS|reflexivity]. }
     constructor; cbn [fst snd]; [exact HG'|split; [exact R|split; assumption]|rewrite T1, T2; reflexivity|].
-    rewrite !items_snoc, !others_app, Ho. cbn [e_items].
+    apply others_snoc; [exact Ho|].
     rewrite (others_own _ (around_own sc 0 m _ w Hok)), (others_own _ (around_own sc' 0 m _ w' Hok')). reflexivity.
   - rewrite (cb_start i stage Hi). destruct HR as [HS|HD].
     + destruct (same_other_event 0 i (start_cb sc stage i) w w' Hi HS (start_cb_ok (nmods sc) (cfg sc i) 0 i stage)) as (E1 & E2 & E3 & T1 & T2).
       { intros s s' H. unfold start_cb. apply at_sim_start_agree, H. }
       destruct (E3 W W') as [Wa Wb].
       constructor; cbn [fst snd]; [exact HG'|split; [left; exact E2|split; assumption]|rewrite T1, T2; exact Ht|].
-      rewrite !items_snoc, !others_app, Ho. cbn [e_items]. rewrite E1. reflexivity.
+      apply others_snoc; [exact Ho|rewrite E1; reflexivity].
     + destruct (dead_other_event 0 i (start_cb sc stage i) w w' Hi HD (start_cb_ok (nmods sc) (cfg sc i) 0 i stage)) as (E1 & E2 & Wa & Wb & T1 & T2); try assumption.
       { intros s s' H. unfold start_cb. apply at_sim_start_agree, H. }
       constructor; cbn [fst snd]; [exact HG'|split; [right; exact E2|split; assumption]|rewrite T1, T2; exact Ht|].
-      rewrite !items_snoc, !others_app, Ho. cbn [e_items]. rewrite E1. reflexivity.
+      apply others_snoc; [exact Ho|rewrite E1; reflexivity].
 Qed.
 
 Lemma start_stage_sim stage : forall ms acc acc', NoDup ms -> SI acc acc' ->
